@@ -273,6 +273,31 @@ static void decode(const json& v)
             bad(c, "value", "group-bl", key, "header blockLength differs", cs);
         else
             rep.ok("group-bl");
+        // entries reached by iteration start where the image puts them
+        {
+            std::vector<std::ptrdiff_t> got, exp;
+            const std::string child = join(g["level"]).empty()
+                                          ? g["name"].get<std::string>()
+                                          : join(g["level"]) + "/" + g["name"].get<std::string>();
+            for(const auto& inst : v["insts"])
+            {
+                if(join(inst["level"]) != child || inst["ip"].size() != g["ip"].size() + 1)
+                    continue;
+                bool same = true;
+                for(std::size_t q = 0; q < g["ip"].size(); q++)
+                    same = same && inst["ip"][q] == g["ip"][q];
+                if(same)
+                    exp.push_back(inst["addr"].get<std::ptrdiff_t>() - (std::ptrdiff_t)v0);
+            }
+            err = attempt([&] { got = go.entry_addrs(p, size, ip); });
+            if(!err.empty())
+                bad(c, "addr", "group-iter", key, err, cs);
+            else if(got != exp)
+                bad(c, "addr", "group-iter", key,
+                    "entries reached by iteration do not start where the image puts them", cs);
+            else
+                rep.ok("group-iter");
+        }
         err = attempt([&] { sz = go.size_bytes(p, size, ip); });
         if(!err.empty())
             bad(c, "size", "group-size", key, err, cs);
